@@ -4,7 +4,7 @@ From Coq Require Import String.
 From Coq Require Import Sorted Permutation.
 From PG Require Import Lib.Str Model.TALES Proofs.TALESFacts Model.TALProg Model.TALProgSpec Proofs.TALProgFacts
                        Model.TALCompile Proofs.TALCompileFacts Model.TALESEval Proofs.TALESEvalFacts
-                       Model.TALVM Model.TALOut Proofs.TALOutFacts.
+                       Model.TALVM Model.TALOut Proofs.TALOutFacts Proofs.TALCompileWf Proofs.TALVMTerm.
 Local Open Scope N_scope.
 
 (* ---- compiled programs are structurally well formed ----
@@ -111,18 +111,18 @@ Theorem C17_text_keyword_refuted :
 Proof. exact TALCompileFacts.text_keyword_refuted. Qed.
 Print Assumptions C17_text_keyword_refuted.
 
-(* "every compiled program is structurally well formed": the full statement for the repaired compiler.
-   Proved below for event streams without TAL/METAL (C17_wf_program_partial); for the TAL part it is
-   checked per program: the real program equals the model's output (chk_compile) and satisfies
-   wf_program (chk_wf) for every generated template.  Missing for the full proof: the tag-stack
-   invariant of parse_start_tag / pop_tag_loop for elements that carry commands. *)
-(* Model/TALCompile.compile_wf_statement :=
-     forall es p t m, compile repaired es = COk (p, (t, m)) -> wf_program p t m = true. *)
-
-Theorem C17_wf_program_partial :
-  forall v es p t m, forallb tal_free_event es = true -> compile v es = COk (p, (t, m)) -> wf_program p t m = true.
-Proof. exact TALCompileFacts.wf_tal_free. Qed.
-Print Assumptions C17_wf_program_partial.
+(* "Every compiled program is structurally well-formed": for EVERY event stream that the (repaired)
+   compiler model accepts — any nesting, any TAL and METAL statements, TAL-namespace elements, HTML
+   elements without end tags, unclosed plain elements — the emitted commandList / symbolTable / macros
+   pass wf_program (hence C17_wf_program_sound: scopes balanced and properly nested, commands in
+   priority order, every jump target the ENDTAG_ENDSCOPE of the owning element, every macro and slot
+   exactly one element).  Proof: induction over the event stream with the tag-stack invariant
+   (Proofs/TALCompileWf.v), and completeness of the boolean checker (Proofs/TALProgComplete.v).
+   The compile model is tied to the real compiler by Corr/K17.chk_compile on every run. *)
+Theorem C17_wf_program :
+  forall es p t m, compile repaired es = COk (p, (t, m)) -> wf_program p t m = true.
+Proof. exact TALCompileWf.compile_wf. Qed.
+Print Assumptions C17_wf_program.
 
 (* the pinned compiler accepts a template whose last TAL element is never closed and returns a
    program that is NOT well formed; the repaired one rejects the template *)
@@ -130,6 +130,21 @@ Theorem C17_wf_program_refuted :
   exists es, (exists p t m, compile pinned es = COk (p, (t, m)) /\ wf_program p t m = false) /\ compile repaired es = CErr.
 Proof. exact TALCompileFacts.wf_refuted. Qed.
 Print Assumptions C17_wf_program_refuted.
+
+(* ... so does a compiler that emits a statement given twice on one element (two tal:define push the
+   locals twice) — the repaired one rejects the template — *)
+Theorem C17_wf_program_duplicate_refuted :
+  exists es, (exists p t m, compile no_dup_fix es = COk (p, (t, m)) /\ wf_program p t m = false) /\ compile repaired es = CErr.
+Proof. exact TALCompileFacts.duplicate_pinned_not_wf. Qed.
+Print Assumptions C17_wf_program_duplicate_refuted.
+
+(* ... and one that lets a macro start where define-macro is compiled rather than where its element
+   starts (use-macro + define-macro on one element, the METAL idiom for extending a macro) *)
+Theorem C17_wf_program_substart_refuted :
+  exists es, (exists p t m, compile no_start_fix es = COk (p, (t, m)) /\ wf_program p t m = false) /\
+             (exists p t m, compile repaired es = COk (p, (t, m)) /\ wf_program p t m = true).
+Proof. exact TALCompileFacts.substart_pinned_not_wf. Qed.
+Print Assumptions C17_wf_program_substart_refuted.
 
 (* ---- TALES (Model/TALESEval.v; tied to the real Context.evaluate by Corr/K17.chk_eval) ---- *)
 (* alternation: the value is that of the first alternative that exists *)
@@ -164,6 +179,30 @@ Theorem C17_tales_exists_nocall :
     fst (eval_nocall val traverse ev p) = traverse p false.
 Proof. exact TALESEvalFacts.exists_nocall_law. Qed.
 Print Assumptions C17_tales_exists_nocall.
+
+(* ---- termination: enough fuel exists ----
+   For every well-formed program in which no sub-template can be called (no macros, no slot fillers:
+   METAL unused) and for ALL data decisions (every tal:repeat runs over a finite sequence chosen by
+   the data, one item per loop-back), the interpreter reaches the end of the program after finitely many
+   steps, with the scopes restored.  With macro calls termination does not hold in general (a macro
+   may use itself); C18_context_restored covers every terminating run there. *)
+Theorem C17_vm_terminates :
+  forall (p : program) (t : symtab), wf_program p t [] = true -> prog_slots p = [] ->
+  forall (D : Type) (o_cond : D -> cmd -> bool) (o_rep : D -> cmd -> rep_dec) (o_val : D -> cmd -> val_dec)
+         (o_mac : D -> cmd -> mac_dec) (o_upd : D -> nat -> cmd -> D) (c : ctx) (d : D), exists fuel mf,
+    vm_run p t (all_subs p []) D o_cond o_rep o_val o_mac o_upd fuel c d = Done mf /\
+    c_sc (cx D mf) = c_sc c /\ sstack D mf = [] /\ pc D mf = length p.
+Proof. exact TALVMTerm.terminates_without_metal. Qed.
+Print Assumptions C17_vm_terminates.
+
+Theorem C17_vm_terminates_compiled :
+  forall (es : list event) (p : program) (t : symtab), compile repaired es = COk (p, (t, [])) -> prog_slots p = [] ->
+  forall (D : Type) (o_cond : D -> cmd -> bool) (o_rep : D -> cmd -> rep_dec) (o_val : D -> cmd -> val_dec)
+         (o_mac : D -> cmd -> mac_dec) (o_upd : D -> nat -> cmd -> D) (c : ctx) (d : D), exists fuel mf,
+    vm_run p t (all_subs p []) D o_cond o_rep o_val o_mac o_upd fuel c d = Done mf /\
+    c_sc (cx D mf) = c_sc c /\ sstack D mf = [] /\ pc D mf = length p.
+Proof. exact TALVMTerm.terminates_compiled. Qed.
+Print Assumptions C17_vm_terminates_compiled.
 
 (* ---- compiler + interpreter against the specification ----
    Full statement (C17_compiler_correct): for every element tree t and context c,
